@@ -9,6 +9,8 @@ package main
 import (
 	"fmt"
 	"go/constant"
+	"path/filepath"
+	"strings"
 	"go/token"
 	"go/types"
 
@@ -342,6 +344,30 @@ func (e *EvalEnv) Eval(fn *ssa.Function, args []AV, depth int) ([]AV, string) {
 				if x.K == avRef {
 					x = e.load(x)
 				}
+				if x.K == avStr {
+					lo, hi := int64(0), int64(len(x.S))
+					if v.Low != nil {
+						if l := e.val(fr, v.Low); l.K == avInt {
+							lo = l.I
+						} else {
+							e.undecided("slice bound")
+							return nil, "undecided"
+						}
+					}
+					if v.High != nil {
+						if h := e.val(fr, v.High); h.K == avInt {
+							hi = h.I
+						} else {
+							e.undecided("slice bound")
+							return nil, "undecided"
+						}
+					}
+					if lo < 0 || hi > int64(len(x.S)) || lo > hi {
+						return nil, "panic"
+					}
+					fr.vals[v] = avS(x.S[lo:hi])
+					continue
+				}
 				if x.K != avSlice {
 					e.undecided("slice of %v", x)
 					return nil, "undecided"
@@ -620,4 +646,136 @@ func (e *EvalEnv) call(fr *evalFrame, c *ssa.Call, depth int) ([]AV, string) {
 	}
 	e.undecided("external call %s", callee.String())
 	return nil, "undecided"
+}
+
+// stdlibStringHook models pure string helpers of the standard library on concrete operands by calling the real
+// functions (this executes standard-library code inside the checker, never sod code).
+func stdlibStringHook(callee *ssa.Function, args []AV) ([]AV, bool) {
+	if callee == nil || callee.Object() == nil || callee.Object().Pkg() == nil {
+		return nil, false
+	}
+	str := func(i int) (string, bool) {
+		if i < len(args) && args[i].K == avStr {
+			return args[i].S, true
+		}
+		return "", false
+	}
+	num := func(i int) (int, bool) {
+		if i < len(args) && args[i].K == avInt {
+			return int(args[i].I), true
+		}
+		return 0, false
+	}
+	strs := func(ss []string) AV {
+		out := AV{K: avSlice}
+		for _, x := range ss {
+			out.Elems = append(out.Elems, avS(x))
+		}
+		return out
+	}
+	pkg, name := callee.Object().Pkg().Path(), callee.Name()
+	switch pkg + "." + name {
+	case "strings.SplitN":
+		a, ok1 := str(0)
+		b, ok2 := str(1)
+		n, ok3 := num(2)
+		if ok1 && ok2 && ok3 {
+			return []AV{strs(strings.SplitN(a, b, n))}, true
+		}
+	case "strings.Split":
+		a, ok1 := str(0)
+		b, ok2 := str(1)
+		if ok1 && ok2 {
+			return []AV{strs(strings.Split(a, b))}, true
+		}
+	case "strings.Cut":
+		a, ok1 := str(0)
+		b, ok2 := str(1)
+		if ok1 && ok2 {
+			x, y, f := strings.Cut(a, b)
+			return []AV{avS(x), avS(y), avB(f)}, true
+		}
+	case "strings.TrimSuffix":
+		a, ok1 := str(0)
+		b, ok2 := str(1)
+		if ok1 && ok2 {
+			return []AV{avS(strings.TrimSuffix(a, b))}, true
+		}
+	case "strings.TrimPrefix":
+		a, ok1 := str(0)
+		b, ok2 := str(1)
+		if ok1 && ok2 {
+			return []AV{avS(strings.TrimPrefix(a, b))}, true
+		}
+	case "strings.HasSuffix":
+		a, ok1 := str(0)
+		b, ok2 := str(1)
+		if ok1 && ok2 {
+			return []AV{avB(strings.HasSuffix(a, b))}, true
+		}
+	case "strings.HasPrefix":
+		a, ok1 := str(0)
+		b, ok2 := str(1)
+		if ok1 && ok2 {
+			return []AV{avB(strings.HasPrefix(a, b))}, true
+		}
+	case "strings.Index":
+		a, ok1 := str(0)
+		b, ok2 := str(1)
+		if ok1 && ok2 {
+			return []AV{avI(int64(strings.Index(a, b)))}, true
+		}
+	case "strings.LastIndex":
+		a, ok1 := str(0)
+		b, ok2 := str(1)
+		if ok1 && ok2 {
+			return []AV{avI(int64(strings.LastIndex(a, b)))}, true
+		}
+	case "path/filepath.Ext":
+		if a, ok := str(0); ok {
+			return []AV{avS(filepath.Ext(a))}, true
+		}
+	case "path/filepath.Base":
+		if a, ok := str(0); ok {
+			return []AV{avS(filepath.Base(a))}, true
+		}
+	case "path/filepath.Dir":
+		if a, ok := str(0); ok {
+			return []AV{avS(filepath.Dir(a))}, true
+		}
+	case "path/filepath.Join":
+		if len(args) == 1 && args[0].K == avSlice {
+			var parts []string
+			for _, el := range args[0].Elems {
+				if el.K != avStr {
+					return nil, false
+				}
+				parts = append(parts, el.S)
+			}
+			return []AV{avS(filepath.Join(parts...))}, true
+		}
+	case "fmt.Sprintf":
+		f, ok := str(0)
+		if ok && len(args) == 2 && args[1].K == avSlice {
+			var vals []interface{}
+			for _, el := range args[1].Elems {
+				v := el
+				if v.K == avIface && v.Inner != nil {
+					v = *v.Inner
+				}
+				switch v.K {
+				case avStr:
+					vals = append(vals, v.S)
+				case avInt:
+					vals = append(vals, v.I)
+				case avBool:
+					vals = append(vals, v.B)
+				default:
+					return nil, false
+				}
+			}
+			return []AV{avS(fmt.Sprintf(f, vals...))}, true
+		}
+	}
+	return nil, false
 }
